@@ -5,7 +5,8 @@ multi-line headers, decorators, docstrings in three styles (consistent with the 
 simple bodies, comments, blank lines.  A generated module is {"src": text, "feat": [labels]}.
 
 `hazards` switches on the four shapes that are open findings (each under its own label):
-  P19 async def with docstring, P26 comment inside a multi-line header, P27 one-line def, P28 raw docstring.
+  P19 async def with docstring, P26 comment inside a multi-line header, P27 one-line def, P28 raw docstring,
+  P68 DECORATED def whose header line carries a trailing comment (the CST scanner then splits the docstring apart).
 """
 from hypothesis import strategies as st
 
@@ -15,10 +16,10 @@ scal = st.sampled_from(["int", "str", "float", "bool", "Optional[int]", "List[st
 # annotations with brackets, parentheses, quotes, commas and operators inside (all valid where an annotation may stand)
 rich_ann = st.sampled_from([
     "Annotated[int, Field(gt=0)]", "Tuple[()]", "Literal[(1, 2)]", "Union[int, type(None)]", "Callable[[int], str]",
-    "Dict[str, int]", "'Forward'", "int | None", "(int)", "Tuple[int, ...]", "os.PathLike",
+    "Dict[str, int]", "'Forward'", "int | None", "(int)", "Tuple[int, ...]", "Literal[':', '->']", "os.PathLike",
 ])
 ann = st.one_of(scal, scal, scal, rich_ann)
-lit = st.one_of(st.integers(-9, 199).map(repr), st.sampled_from(["'s'", '"t"', "None", "True", "0.5", "(1, 2)", "[]", "-3.5", "'a:b'", "')'", "lambda x: x"]))
+lit = st.one_of(st.integers(-9, 199).map(repr), st.sampled_from(["'s'", '"t"', "None", "True", "0.5", "(1, 2)", "[]", "-3.5", "'a:b'", "')'", "'->'", "lambda x: x"]))
 
 
 @st.composite
@@ -152,6 +153,16 @@ def funcdef(draw, indent=0, method=False, depth=0, hazards=(), feat=None):
         hdr.append(pad + defkw + name + "(" + ", ".join(args) + ")" + (" -> %s" % ret_ann if ret_ann else "") + ":")
     body = []
     bpad = pad + "    "
+    # comments between the header's colon and the first statement / docstring: trailing on the header line
+    # (`def f(a):  # noqa`) and / or on lines of their own
+    if draw(st.integers(0, 5)) == 0 and (not deco or "P68" in hazards):
+        hdr[-1] += draw(st.sampled_from(["  # noqa: E501", " # c", "  # type: ignore", "  # -> (x): y"]))
+        feat.append("comment-after-header")
+        if deco:
+            feat.append("hazard:P68-decorated-def-with-header-comment")
+    if draw(st.integers(0, 7)) == 0:
+        body.append(bpad + "# note before the body")
+        feat.append("comment-before-docstring")
     if depth == 0 and not is_async and draw(st.integers(0, 7)) == 0:
         # a stub: the body consists SOLELY of a docstring - informative, blank, or an IDE skeleton of bare fields
         kind = draw(st.sampled_from(["informative", "blank", "skeleton"]))
